@@ -128,6 +128,25 @@ def rand_spec(rng, n_nodes=None, tie_stream=False, allow_trainable=False):
     if n >= 2 and rng.random() < 0.7:
         j = rng.randrange(1, n)
         have.add((j, rng.randrange(0, j)))
+    # every node must be able to influence the supervisor (with pruning, a node that is no ancestor of any supervisor
+    # step has no slot in the compiled graph, and Graph.init_record cannot represent it)
+    sup_i = rng.randrange(n)
+    changed = True
+    while changed:
+        changed = False
+        reach = {sup_i}
+        grow = True
+        while grow:
+            grow = False
+            for (a, b) in have:
+                if b in reach and a not in reach:
+                    reach.add(a)
+                    grow = True
+        for a in range(n):
+            if a not in reach:
+                have.add((a, sup_i))
+                changed = True
+                break
     for (i, j) in sorted(have):
         back = i > j
         period = 1.0 / rates[i]
@@ -142,7 +161,7 @@ def rand_spec(rng, n_nodes=None, tie_stream=False, allow_trainable=False):
         ins = [c for c in conns if c["dst"] == nd["name"]]
         if ins and any(c["blocking"] for c in ins) and rng.random() < 0.3:
             nd["advance"] = True
-    sup = f"n{rng.randrange(n)}"
+    sup = f"n{sup_i}"
     return dict(nodes=nodes, conns=conns, supervisor=sup, seed=rng.randrange(1 << 30))
 
 
